@@ -15,7 +15,7 @@ ID = "C12"
 LEVEL = "exploration"
 NEEDS_DEPS = True
 RULE = (
-    "G-vcf documents of one consistent ploidy (2, 3 or 4) with PS- or HP-encoded phase sets (consecutive, interleaved, "
+    "G-vcf documents of ploidy 2, 3 or 4 (a quarter of the diploid ones with haploid calls of some or all samples on one contig, as on chrX/chrM) with PS- or HP-encoded phase sets (consecutive, interleaved, "
     "nested, up to 3 open at a time), unphased / homozygous / missing / partially missing calls, singletons, multi-ALT, "
     "symbolic and no-ALT records, duplicate positions, 1-3 chromosomes, 1-3 samples; run through whatshap.cli.stats.run_stats "
     "with --tsv --block-list --gtf and every combination of --only-snvs / --chromosome (plain and bgzip+tabix input) / "
@@ -302,6 +302,21 @@ def gen_case(rng):
         kinds=["snv"] * 6 + ["ins", "del", "mnp", "multi", "symbolic", "noalt"],
         with_pq=rng.random() < 0.2,
     )
+    sex = None
+    if ploidy == 2 and len(doc.contigs) >= 2 and rng.random() < 0.25:
+        # a sex chromosome / chrM: on one contig some samples (possibly all) carry haploid calls, diploid everywhere else
+        sex = "chrX" if "chrX" in doc.contigs else rng.choice(doc.contigs)
+        who = [i for i in range(len(doc.samples)) if rng.random() < 0.6] or [0]
+        for r in doc.records:
+            if r["chrom"] != sex or not r["calls"] or "GT" not in (r["fmt"] or []):
+                continue
+            for i in who:
+                call = r["calls"][i]
+                g = call.get("GT", ".").replace("|", "/").split("/")[0]
+                call["GT"] = g
+                for k_ in ("PS", "HP", "PQ"):
+                    if k_ in call:
+                        call[k_] = "."
     compress = rng.random() < 0.4
     chroms = None
     if rng.random() < 0.4:
@@ -315,6 +330,7 @@ def gen_case(rng):
         "only_snvs": rng.random() < 0.3,
         "sample": rng.choice([None] + doc.samples),
         "ploidy": ploidy,
+        "haploid_contig": sex,
     }
 
 
